@@ -178,7 +178,22 @@ drilled:
 	b1, _ := json.Marshal(hs[k].Events)
 	b2, _ := json.Marshal(again.Events)
 	if string(b1) != string(b2) {
-		return Brokenf("history with seed %d is not reproducible; cannot turn the rejection into a verdict", seeds[k])
+		// The same calls give another recording the second time: the library carries state from one history into the
+		// next. Both recordings are real behaviours; the verdict comes from the second one as well.
+		single := filepath.Join(c.Work, "trace-second.ndjson")
+		writeTrace(single, []*drive.History{again})
+		at2, _, err := c.tlcTrace(single, "trace-second", 10*time.Minute)
+		if err != nil {
+			return err
+		}
+		if at2 < 0 {
+			return Brokenf("history with seed %d is not reproducible (and its second recording is accepted); cannot turn the rejection into a verdict", seeds[k])
+		}
+		ev := again.Events[at2-1]
+		evj, _ := json.Marshal(ev)
+		c.Violate(fmt.Sprintf("recorded history (seed %d) is not a behaviour of the specification, and repeating the same calls in the same process gives ANOTHER recording (state carried across histories), rejected as well: event %d %s has no matching transition", seeds[k], at2, evj),
+			TraceWitness{TraceSeed: seeds[k], Opts: o, EventIndex: at2, Event: ev, Explain: "both recordings of the same call sequence are rejected by the Autograd machine"})
+		return nil
 	}
 	single := filepath.Join(c.Work, "trace-single.ndjson")
 	writeTrace(single, []*drive.History{again})
